@@ -542,10 +542,70 @@ pub fn run(ctx: &Ctx) -> Report {
             total_mutants += np * np;
         }
     }
+    // concurrency: a forged request (another method / path / body under the genuine request's credential and
+    // signature) validated at the same time as the genuine one, multiplexed on one thread with a provider that
+    // is Pending before it answers; every order of polls; the forgery must be refused in all of them
+    {
+        use rayon::prelude::*;
+        let mut jobs: Vec<(String, Case, &'static str, Case, (u32, u32, u32), usize)> = Vec::new();
+        for b in bs.iter().filter(|b| b.name.contains("shape1") || b.name.contains("shape2")).take(4) {
+            let genuine = Case { wire: b.wire.clone(), cfg: b.cfg.clone(), prov: ProvSpec::standard() };
+            let mut forged: Vec<(&'static str, WireReq)> = Vec::new();
+            let mut f = b.wire.clone();
+            f.method = "DELETE".into();
+            forged.push(("method", f));
+            let mut f = b.wire.clone();
+            f.uri = f.uri.replacen('/', "/admin/", 1);
+            forged.push(("path", f));
+            let mut f = b.wire.clone();
+            f.body.extend_from_slice(b"&admin=1");
+            forged.push(("body", f));
+            for (what, fw) in forged {
+                let fcase = Case { wire: fw, cfg: b.cfg.clone(), prov: ProvSpec::standard() };
+                let pendings: Vec<(u32, u32, u32)> = if thorough { vec![(0, 0, 1), (1, 1, 1), (0, 1, 2)] } else { vec![(0, 0, 1), (1, 1, 1)] };
+                for pd in pendings {
+                    jobs.push((b.name.clone(), genuine.clone(), what, fcase.clone(), pd, if thorough { 3 } else { 2 }));
+                }
+            }
+        }
+        let ib = index_base;
+        let parts: Vec<Stats> = jobs
+            .par_iter()
+            .map(|(bname, genuine, what, fcase, (bp, rp, fp), ntasks)| {
+                let mut conc = Stats::new();
+                let cases = [genuine.clone(), fcase.clone(), genuine.clone()];
+                let make = |i: usize| crate::checks::c18::make_task(&cases[i], *bp, *rp, *fp);
+                let stats = crate::sched::explore_tasks(*ntasks, &make, 2_000_000, &mut |order, outs| {
+                    conc.evaluations += 1;
+                    conc.validated += 1;
+                    conc.transitions += order.len() as u64;
+                    conc.nontrivial(&(bname, what, bp, rp, fp, order));
+                    conc.state(&(outs.to_vec(), "concurrent"));
+                    let forged_ok = outs.get(1).map(|o| o.starts_with("Ok")).unwrap_or(false);
+                    if forged_ok {
+                        conc.violation(Violation {
+                            index: ib + conc.evaluations,
+                            what: format!("forgery-accepted-while-the-genuine-request-is-in-flight({})", what),
+                            case: json!({"e2e": fcase, "base": bname, "poll_order": order, "pending": [bp, rp, fp]}),
+                            expected: "forged request refused".into(),
+                            observed: format!("{:?}", outs),
+                            known: None,
+                        });
+                    }
+                });
+                conc.outcome(&format!("concurrent:{} interleavings", if stats.capped { "capped" } else { "all" }));
+                conc
+            })
+            .collect();
+        for p in parts {
+            st = st.merge(p);
+        }
+    }
+
     Report {
         stats: st,
         rule: format!(
-            "{} validly signed base requests (carrier x options x token x shape, one shape carrying x-amz-content-sha256 / Content-Length / Content-MD5 as S3 clients do), each accepted by implementation and reference; for each, every single-component mutation: 13 methods; every URI position x every byte http admits ({} values) + 7 insertions + deletion per position; every header (signed, unsigned, Authorization, date, token) position x 8 bytes + insertion + deletion, header removed/added/duplicated/renamed; every bit of every body byte, truncations, appends; old signature transplanted onto requests re-signed with a changed instant (10 deltas, 5 renderings), date text, 12 scope near-misses, 5 access keys, signed-list drops/additions, token changes; provider key: all 256 single-bit flips, 5 off-by-one derivations, another secret; signature: every digit x 15 other values, upper case, every truncation, extensions, all hex strings of length <= 2{}. Each mutant is validated right after the genuine request was accepted on the same thread (so a remembered success cannot vouch for it). Oracle: the implementation may return Ok only if the reference verifier, run on the request as received with the key the provider handed out, accepts. states = distinct reference strings-to-sign (+ refusal stage); non-trivial = distinct (mutated request, provider)",
+            "{} validly signed base requests (carrier x options x token x shape, one shape carrying x-amz-content-sha256 / Content-Length / Content-MD5 as S3 clients do), each accepted by implementation and reference; for each, every single-component mutation: 13 methods; every URI position x every byte http admits ({} values) + 7 insertions + deletion per position; every header (signed, unsigned, Authorization, date, token) position x 8 bytes + insertion + deletion, header removed/added/duplicated/renamed; every bit of every body byte, truncations, appends; old signature transplanted onto requests re-signed with a changed instant (10 deltas, 5 renderings), date text, 12 scope near-misses, 5 access keys, signed-list drops/additions, token changes; provider key: all 256 single-bit flips, 5 off-by-one derivations, another secret; signature: every digit x 15 other values, upper case, every truncation, extensions, all hex strings of length <= 2{}. Finally the genuine request, a forged one under its signature (method / path / body changed) and the genuine one again are validated as two (thorough: three) futures multiplexed on one thread against a provider that is Pending first, in every order of polls. Each mutant is validated right after the genuine request was accepted on the same thread (so a remembered success cannot vouch for it). Oracle: the implementation may return Ok only if the reference verifier, run on the request as received with the key the provider handed out, accepts. states = distinct reference strings-to-sign (+ refusal stage); non-trivial = distinct (mutated request, provider)",
             bs.len(), uri_bytes.len(),
             if thorough { "; plus all pairs over ~600 strided mutation sites on four bases" } else { "" }
         ),
